@@ -174,6 +174,86 @@ func runC16(c *eng.Ctx) {
 			fmt.Sprintf("hashes {%s}; stores namespace=%s name=%s", strings.Join(hs, ", "), stored["namespace"], stored["name"]))
 	})
 
+	// ---- 2b'. request-level (enriched) tags are bound AFTER the row's own tags in every format ------------------------------------------
+	c.Rule("SYMMETRY", "series/metric{enriched tags follow the row's own tags in both formats}", func() {
+		const enr = "series/metric.BrokerRowFlatDecoder.enrichedTags"
+		f := c.Fn("series/metric.BrokerRowFlatDecoder.rebuild")
+		var own, enriched []eng.Site
+		for _, s := range c.Some(f, invokeOn("rowBuilder", "AddTag"), "rowBuilder.AddTag") {
+			isEnr := false
+			for _, a := range eng.CallArgs(s.Instr.(ssa.CallInstruction)) {
+				if eng.DependsOnField(a, enr) {
+					isEnr = true
+				}
+			}
+			if isEnr {
+				enriched = append(enriched, s)
+			} else {
+				own = append(own, s)
+			}
+		}
+		c.Check(len(own) >= 1 && len(enriched) >= 1, "flat:both-kinds-added", nil, f, "the flat decoder adds the row's own tags and the enriched tags", fmt.Sprintf("own %d, enriched %d", len(own), len(enriched)))
+		for i, e := range enriched {
+			w, found := eng.Reaches(f, e.Instr, own, nil)
+			detail := ""
+			if found {
+				detail = "an own tag is still added at " + p.InstrPos(w) + " after an enriched tag: for a repeated key the later binding wins, so this format would resolve it to the other value than the protobuf format does"
+			}
+			c.Check(!found, fmt.Sprintf("flat:enriched-last[%d]", i), e.Instr, f, "no own tag of the row is added after an enriched tag", detail)
+		}
+		// protobuf: the enriched tags are appended to the metric's own tag list
+		m := c.Fn(cvtT + ".validateMetric")
+		n := 0
+		for _, st := range p.Sites(m, eng.StoreField(pmT+".Tags")) {
+			v := eng.Unwrap(st.Instr.(*ssa.Store).Val)
+			cl, ok := v.(*ssa.Call)
+			if !ok {
+				continue
+			}
+			if b, ok := cl.Common().Value.(*ssa.Builtin); !ok || b.Name() != "append" {
+				continue
+			}
+			if !eng.DependsOnField(cl.Common().Args[1], cvtT+".enrichedTags") {
+				continue
+			}
+			n++
+			c.Check(eng.DependsOnField(cl.Common().Args[0], pmT+".Tags"), fmt.Sprintf("proto:enriched-appended[%d]", n), st.Instr, m,
+				"the protobuf converter appends the enriched tags behind the metric's own tags", "first operand "+p.Desc(cl.Common().Args[0]))
+		}
+		c.Check(n >= 1, "proto:enrichment-found", nil, m, "the protobuf converter binds the enriched tags", "")
+	})
+
+	// ---- 2b''. the sharding base is the database's configured shard count -----------------------------------------------------------------
+	c.Rule("PROV", dchT+".numOfShard{the configured shard count, never the number of channels opened so far}", func() {
+		n := 0
+		for _, fn := range p.FuncsWithPrefix("replica.") {
+			for _, b := range fn.Blocks {
+				for _, in := range b.Instrs {
+					fa, method, call := eng.AtomicOp(in)
+					if fa == nil || eng.FieldKeyOfAddr(fa) != dchT+".numOfShard" || method == "Load" {
+						continue
+					}
+					n++
+					args := eng.CallArgs(call)
+					v := args[len(args)-1]
+					fromParam := eng.DependsOn(v, func(x ssa.Value) bool { _, ok := x.(*ssa.Parameter); return ok })
+					fromLen := eng.DependsOn(v, func(x ssa.Value) bool {
+						cl, ok := x.(*ssa.Call)
+						if !ok {
+							return false
+						}
+						b, ok := cl.Common().Value.(*ssa.Builtin)
+						return ok && (b.Name() == "len" || b.Name() == "cap")
+					})
+					c.Check(fromParam && !fromLen, fmt.Sprintf("base@%s[%d]", p.FuncKey(fn), n), in, fn,
+						"rows are jump-hashed over the database's shard COUNT (handed in by the caller from the database config); the number of shard channels this broker has created so far is smaller while channels are still being created, and hashing over it sends rows to the wrong shard",
+						"stores "+p.Desc(v))
+				}
+			}
+		}
+		c.Check(n >= 1, "base-set", nil, nil, "the sharding base is stored when the database channel is created", fmt.Sprintf("%d stores", n))
+	})
+
 	// ---- 2c. rows are grouped into families of the SMALLEST configured interval --------------------------------------------------
 	c.Rule("PROV", "replica.newDatabaseChannel{write interval = smallest configured interval}", func() {
 		f := c.Fn("replica.newDatabaseChannel")
